@@ -16,6 +16,8 @@ run MC_Parallel MC_Parallel_notake         # bus cache without last.take()
 run MC_ParXfer MC_ParXfer_fast2            # is_same comparing the first two words only
 run MC_ParXfer MC_ParXfer_wrap             # defect 5: strobe count count * N formed in the machine word (release build: wraps)
 run MC_ParXfer MC_ParXfer_ovf              # defect 5, overflow checks on: panics
+run MC_Fused MC_Fused_nofuse_batch         # defect 6: draw_batch polls the pixel iterator after its first None
+run MC_Fused MC_Fused_nofuse_contig        # defect 7: fill_contiguous ignores the None of its initial nth()
 run MC_Lifecycle MC_Lifecycle_flagfirst    # sleeping flag set before the command is sent
 run MC_Lifecycle MC_Lifecycle_short        # delay shorter than 120 ms
 rm -rf /verif/work/neg.$$
